@@ -57,6 +57,67 @@ def helper_with(c):
 def helper_raise(c):
     t(98)
     raise ValueError('h')
+def strip():
+    t(81)
+    return 'a'
+def upper():
+    t(82)
+    return 'b'
+def registering(f):
+    def wrapper(*a):
+        t(83)
+        return f(*a)
+    return wrapper
+@registering
+def decorated(c):
+    return c
+def pure(c):
+    return c
+class Base:
+    def __init__(self):
+        t(84)
+class Derived(Base):
+    pass
+class Plain:
+    pass
+class WithNew:
+    def __new__(cls):
+        t(85)
+        return super().__new__(cls)
+class Meta(type):
+    def __call__(cls):
+        t(86)
+        return super().__call__()
+class ViaMeta(metaclass=Meta):
+    pass
+class Loud:
+    @property
+    def p(self):
+        return t(87)
+    def __add__(self, other):
+        return t(88)
+    def __eq__(self, other):
+        return t(89) == 0
+    __hash__ = None
+    def __getitem__(self, k):
+        return t(71)
+    def __str__(self):
+        return str(t(72))
+    def __len__(self):
+        return t(73) * 0
+    def __contains__(self, k):
+        return t(74) == 0
+    def __neg__(self):
+        return t(75)
+    def __bool__(self):
+        return t(76) == 0
+    def __format__(self, spec):
+        return str(t(77))
+    def __getattr__(self, name):
+        return t(78)
+    def __iter__(self):
+        return iter([t(79)])
+loud = Loud()
 '''
 CONDS = ["True", "False", "0", "1", "c1", "not c1", "c2", "t(7)", "not t(8)", "c1 and c2", "None", "[]", "'a'"]
 VALUATIONS = [dict(c1=a, c2=b, c3=c, it=list(i)) for a in (False, True) for b in (False, True) for c in (False, True) for i in ([], [1], [1, 2])]
@@ -264,10 +325,21 @@ POINTLESS = ["[t(1) for _ in range(2)]", "[0 for _ in range(2) if t(2)]", "[0 fo
              "await_free = 1", "it.append(t(9))", "it[0:0] = [t(1)]", "del it[:]", "it += [t(2)]", "c1 = t(3)", "global_name = t(4)", "lambda: 0", "...",
              "None", "[] + [t(5)]", "dict(a=t(6))", "bool(t(7))", "int(str(t(8)))", "range(t(9))", "iter([t(1)])", "next(iter([t(2)]))", "type(t(3))",
              "(1, 2, 3)[0:2:t(1)]", "it[::t(2) or 1]", "it[t(3):]", "helper_if(c1)", "helper_try(c1)", "helper_with(c1)", "x = helper_if(c2)", "[helper_if(c1)]",
+             "'a'.strip(strip())", "'a b'.split(upper())", "'a'.upper().strip(strip())", "decorated(c1)", "[decorated(1)]", "pure(c1)", "Derived()", "Plain()", "WithNew()", "ViaMeta()", "x = Derived()",
              "'%s' % t(4)", "'{}'.format(t(5))", "b'' or t(6)", "(lambda v: v)(t(7))", "[t(8)][0]", "{1: t(9)}[1]", "(t(1), t(2))[1]", "t(3) if t(4) else t(5)"]
 
 
+USER_OBJECTS = ["loud.p", "loud + 1", "loud == 1", "loud[0]", "str(loud)", "len(loud)", "1 in loud", "-loud", "not loud", "f'{loud}'", "loud.missing", "[*loud]", "loud or 1", "1 if loud else 2",
+                "'%s' % loud", "list(loud)", "sorted(loud)", "(loud, loud.p)", "{1: loud}[1].p", "print if loud else 0"]
+
+
 KEPT_FOR_EFFECT = [
+    ("a local function named like a pure function of the module", ["def pure(v):", "    t(61)", "    return v", "pure(c1)"]),
+    ("a local class named like a pure class of the module", ["class Plain:", "    def __init__(self):", "        t(62)", "Plain()"]),
+    ("a parameter named like a pure function of the module", ["def run(pure):", "    pure(c1)", "run(t)"]),
+    ("a name rebound to an effectful function", ["quiet_name = pure", "quiet_name = t", "quiet_name(3)"]),
+    ("a lambda bound to a name", ["cb = lambda: t(63)", "cb()"]),
+    ("a bound method of a list", ["push = it.append", "push(5)", "t(len(it))"]),
     # statements that bind nothing and whose value is dropped, but that are there for what evaluating them does
     ("next skips an element", ["g = iter([1, 2, 3])", "next(g)", "t(next(g))"]),
     ("next with default skips an element", ["g = iter([1, 2, 3])", "next(g, None)", "t(next(g))"]),
@@ -313,7 +385,7 @@ def pointless_shapes():
         g = Gen()
         shapes.append((f"kept for effect: {label}", lines + [g.probe(), "return 'end'"]))
         shapes.append((f"kept for effect[if]: {label}", g.compound("if", "c1", lines) + [g.probe(), "return 'end'"]))
-    for i, e in enumerate(POINTLESS):
+    for i, e in enumerate(POINTLESS + USER_OBJECTS):
         for ctx in ("top", "if", "loop", "else"):
             g = Gen()
             if ctx == "top":
